@@ -54,6 +54,7 @@ type JStop struct {
 	NeverRel   bool  `json:"never_release"` // consumer never sends the release signal
 	StopReader bool  `json:"stop_reader"` // consumer stops reading at StallAt forever
 	Second     bool  `json:"second_stop"` // a second goroutine calls Stop() concurrently
+	NoClose    bool  `json:"no_close"`    // the producer never closes the input (it just stops writing)
 }
 
 func (sc *JoinSc) class() string { return sc.Class }
@@ -244,6 +245,7 @@ func genJoin(engine, prop string, r *simrt.SplitMix) *JoinSc {
 		st := &JStop{Cancel: r.Intn(2) == 0}
 		st.ThenStop = st.Cancel && r.Intn(2) == 0
 		st.Second = r.Intn(4) == 0
+		st.NoClose = r.Intn(3) == 0
 
 		if r.Intn(2) == 0 {
 			st.AtStep = int64(between(r, 1, 60+8*n))
@@ -269,6 +271,17 @@ func genJoin(engine, prop string, r *simrt.SplitMix) *JoinSc {
 			if sc.StallAt == 0 {
 				sc.StallAt = between(r, 1, 3)
 			}
+		}
+
+		if st.NoClose && r.Intn(2) == 0 {
+			// land while the discipline is idle: after the producer has gone quiet
+			var total int64
+			for _, b := range sc.Bursts {
+				total += b.Delay
+			}
+
+			st.AtStep = 0
+			st.AtNs = total + pick(r, 1, unit/2, unit+iv+1, 2*unit+1, 3*unit+iv)
 		}
 
 		sc.Stop = st
@@ -432,6 +445,10 @@ func buildJoin(sc *JoinSc) (simrt.Config, func()) {
 				for _, n := range b.Lens {
 					sendOne(&id, n)
 				}
+			}
+
+			if sc.Stop != nil && sc.Stop.NoClose {
+				return // a producer that simply stops writing: only Stop/cancel can end the discipline
 			}
 
 			if sc.Stop != nil {
@@ -1300,6 +1317,10 @@ func shrinkJoin(sc *JoinSc) []any {
 	}
 
 	if sc.Stop != nil {
+		if sc.Stop.NoClose {
+			add(func(c *JoinSc) { c.Stop.NoClose = false })
+		}
+
 		if sc.Stop.AtStep > 1 {
 			add(func(c *JoinSc) { c.Stop.AtStep /= 2 })
 			add(func(c *JoinSc) { c.Stop.AtStep-- })
